@@ -106,8 +106,10 @@ def exec_calls(item):
     from harness.tlabind.pool import progress
 
     events = []
-    for c in item["calls"]:
-        progress({"op": c["op"], "call": {k: c[k] for k in c if k != "model"}})
+    for k, c in enumerate(item["calls"]):
+        if k < item.get("skip", 0):
+            continue
+        progress({"op": c["op"], "call": {x: c[x] for x in c if x != "model"}, "k": k})
         ev = run_call(c)
         if "model" in c:
             ev["model"] = c["model"]
@@ -242,7 +244,9 @@ def gen_events(item):
     events = []
     for k in range(item["count"]):
         c = _long_call(rng) if (item.get("long") and k % 10 == 0) else _rand_call(rng)
-        progress({"op": c["op"], "call": c})
+        if k < item.get("skip", 0):
+            continue
+        progress({"op": c["op"], "call": c, "k": k})
         ev = run_call(c)
         if len(ev["traces"]) > 150:
             continue
@@ -254,17 +258,27 @@ def gen_events(item):
 def classify(mm):
     """C09-banded-boundary-gap: semi-global align_banded, some pair scores below the gap
     (opening) penalty; the code reports exactly the score of the specification's banded
-    programme (which reproduces the defect) and only honesty / upper bound / reaching fail."""
+    programme (which reproduces the defect) and only honesty / upper bound / reaching fail.
+    C09-banded-affine-sentinel-underflow: semi-global affine align_banded on an input of
+    KB_C09_SentinelUnderflow; the reported score is about 2^31."""
     if mm.get("kind") != "event" or mm.get("op") != "banded":
         return None
     model = mm.get("model") or {}
     bad = set(mm.get("bad") or [])
     obs = mm.get("observed", {})
-    if not bad or not bad <= {"honest", "upper", "reach"}:
+    if not bad or mm.get("call", {}).get("local"):
         return None
-    if not model.get("kb") or mm.get("call", {}).get("local"):
+    sc = obs.get("scores") or []
+    # the wrapped-around value wins every comparison: the score is about 2^31 and the
+    # trace-back follows arbitrary directions (so the trace may also end inside the table)
+    if (model.get("kb_underflow") and len(sc) == 1 and sc[0] > 10 ** 9
+            and bad <= {"valid", "honest", "upper", "reach"}):
+        return "C09-banded-affine-sentinel-underflow"
+    if not bad <= {"honest", "upper", "reach"}:
         return None
-    if obs.get("scores") != [model.get("score")]:
+    if not model.get("kb"):
+        return None
+    if sc != [model.get("score")]:
         return None
     if "upper" in bad and model.get("le"):
         return None
@@ -276,7 +290,16 @@ def classify(mm):
 
 
 # --------------------------------------------------------------------------- TLC side
-def validate(ctx, events, *, stage, selftest=False, workers=8, per_trace=40, timeout=2400):
+def validate(ctx, events, *, stage, selftest=False, workers=8, per_trace=40, timeout=2400, chunk=60000):
+    """TLC judges the events (specs/C09/Trace.tla), at most `chunk` events per TLC run."""
+    if len(events) > chunk:
+        out, diags = [], []
+        for off in range(0, len(events), chunk):
+            o, d = validate(ctx, events[off:off + chunk], stage=stage, selftest=selftest, workers=workers,
+                            per_trace=per_trace, timeout=timeout, chunk=chunk)
+            out += [(ix + off, *rest) for ix, *rest in o]
+            diags += [(ix + off, mt) for ix, mt in d]
+        return out, diags
     from harness.tlabind import tlc as T
     from harness.tlabind.tlaval import parse_value, to_py
 
@@ -313,7 +336,8 @@ def _event_mismatch(ev, flags, allowed, model, stage):
                        "traces": ev["traces"][:6], "sonly": ev["sonly"]},
           "big": ev["big"]}
     if ev["op"] == "banded" and model:
-        mm["model"] = {"kb": model[0], "score": model[1], "le": model[2], "honest": model[3]}
+        mm["model"] = {"kb": model[0], "score": model[1], "le": model[2], "honest": model[3],
+                       "kb_underflow": model[4]}
     return mm
 
 
@@ -370,7 +394,7 @@ def run(ctx):
     cfg = "MC.cfg" if quick else "MC_thorough.cfg"
     d = tlc.scratch_dir("c09dump")
     prefix = os.path.join(d, "states")
-    res = ctx.tlc("Heuristics", cfg, stage="S1", dump=prefix, workers=12, timeout=3000)
+    res = ctx.tlc("Heuristics", cfg, stage="S1", dump=prefix, workers=12, timeout=9000)
     path = prefix + ".dump" if os.path.exists(prefix + ".dump") else prefix
     sts, blocks = parse_dump_fast(path)
     if 2 * len(sts) != res.distinct:
@@ -390,6 +414,8 @@ def run(ctx):
         if f_ is None or f_["model"]["score"] != g["out"]["score"] or f_["model"]["honest"] != g["out"]["honest"]:
             raise RuntimeError("fast dump parser disagrees with the general parser")
     ctx.exhaustive = True
+    # TLC writes the dump in a worker-dependent order: make the order canonical (determinism)
+    sts.sort(key=lambda s: json.dumps([s[k] for k in ("op", "s1", "s2", "M", "gap", "band", "local", "seed", "X", "dir")]))
     by_op = base._count(s["op"] for s in sts)
     banded = [s for s in sts if s["op"] == "banded"]
     sit = {
@@ -423,19 +449,20 @@ def run(ctx):
         c0.update(maxn=1, mts=[], big=0, rep=rep, model=s["model"])
         if s["op"] == "banded":
             calls.append(dict(c0, maxn=1000))
-            if pos % 3 == 0:
+            if pos % (6 if quick else 3) == 0:
                 calls.append(dict(c0, maxn=1 + pos % 2))
         elif s["op"] == "ungapped":
             calls.append(c0)
         else:
-            for x, mx in ((0, 1), (2, 3), (1000, 1000)):
+            variants = ((0, 1), (2, 3), (1000, 1000))
+            for x, mx in ((variants[pos % 3],) if quick else variants):
                 calls.append(dict(c0, X=x, maxn=mx))
     per = 200
     items = [{"calls": calls[i:i + per]} for i in range(0, len(calls), per)]
-    results = helpers.run_pool(ctx, "harness.drivers.c09:exec_calls", items, stage="S2", item_timeout=120)
+    results = base._run_pool(ctx, "harness.drivers.c09:exec_calls", items, "S2")
     events = [e for r in results if r and "events" in r for e in r["events"]]
     ctx.log(f"S2: {len(events)} calls executed")
-    mms, diags = validate(ctx, events, stage="S2")
+    mms, diags = validate(ctx, events, stage="S2", workers=16, chunk=100000)
     for ix, flags, allowed, model in mms:
         ctx.mismatch(_event_mismatch(events[ix], flags, allowed, model, "S2"))
     flagged = {ix for ix, *_ in mms}
@@ -460,7 +487,7 @@ def run(ctx):
     # ---- S3 ----------------------------------------------------------------------------
     nitems, count = (16, 50) if quick else (64, 220)
     sitems = [{"seed": ctx.rng.randrange(1 << 30), "count": count, "long": (k % 4 == 0)} for k in range(nitems)]
-    sres = helpers.run_pool(ctx, "harness.drivers.c09:gen_events", sitems, stage="S3", item_timeout=300)
+    sres = base._run_pool(ctx, "harness.drivers.c09:gen_events", sitems, "S3")
     sev = [e for r in sres if r and "events" in r for e in r["events"]]
     mms, diags = validate(ctx, sev, stage="S3", per_trace=20)
     for ix, flags, allowed, model in mms:
@@ -475,9 +502,9 @@ def run(ctx):
     need = {"banded:Rejected", "ungapped:Rejected", "gapped:Rejected", "banded:ok", "ungapped:ok", "gapped:ok"}
     have = {e["op"] + ":" + e["oc"] for e in sev}
     if not need <= have:
-        raise Vacuity(f"S3 misses outcomes: {sorted(need - have)}")
+        base.vacuity(ctx, f"S3 misses outcomes: {sorted(need - have)}")
     if not any(e["exc"] == "MemoryError" for e in sev) or not any(e["big"] == 1 and e["oc"] == "ok" for e in sev):
-        raise Vacuity("S3 never exercised max_table_size (no MemoryError, or no long sequence accepted)")
+        base.vacuity(ctx, "S3 never exercised max_table_size (no MemoryError, or no long sequence accepted)")
     for e in sev[:2]:
         ctx.sample({"s3_event": {k: (e[k] if k not in ("s1", "s2", "traces") else e[k][:20]) for k in _KEEP}})
     # ---- binding self-test -------------------------------------------------------------
@@ -486,7 +513,7 @@ def run(ctx):
     for e in sev:
         if e["oc"] != "ok" or e["big"] or not e["traces"] or len(e["traces"][0]) < 2 or pick[e["op"]] >= 4:
             continue
-        if e["op"] == "banded" and e["local"] is False and any(min(r) < 0 for r in e["M"]):
+        if e["op"] == "banded" and not e["local"]:
             continue                       # keep the known-bad inputs out of the self-test
         k = pick[e["op"]]
         pick[e["op"]] += 1
@@ -507,7 +534,8 @@ def run(ctx):
                 e["sonly"] = [e["scores"][0] - 1]
         bad.append(e)
     if len(bad) < 8:
-        raise Vacuity("binding self-test: not enough recorded events to corrupt")
+        base.vacuity(ctx, "binding self-test: not enough recorded events to corrupt")
+        return
     rej, _ = validate(ctx, bad, stage="S3", selftest=True, per_trace=1, workers=2)
     hit = {ix for ix, *_ in rej}
     if len(hit) < len(bad):
